@@ -50,6 +50,26 @@ class ProgFalsy(ProgErr):
         return False
 
 
+class ProgStream(StreamClosed):
+    """program code raising one of the library's own public exception types (e.g. passing on
+    the StreamClosed of a stream of its own): a failure like any other"""
+    def __init__(self, tag):
+        Exception.__init__(self, tag)
+        self.tag = tag
+
+
+class ProgUnavailable(ResourcesUnavailable):
+    def __init__(self, tag):
+        Exception.__init__(self, tag)
+        self.tag = tag
+
+
+class ProgInterval(IntervalExceeded):
+    def __init__(self, tag):
+        Exception.__init__(self, tag)
+        self.tag = tag
+
+
 class ProgLookup(LookupError):
     def __init__(self, tag):
         super().__init__(tag)
@@ -89,6 +109,7 @@ class ProgKbd(KeyboardInterrupt):
 EXC_TYPES = {
     'err': ProgErr, 'lookup': ProgLookup, 'key': ProgKey, 'index': ProgIndex,
     'assert': ProgAssert, 'exit': ProgExit, 'kbd': ProgKbd, 'eq': ProgEq, 'falsy': ProgFalsy,
+    'stream': ProgStream, 'unavailable': ProgUnavailable, 'interval': ProgInterval,
 }
 PRIVILEGED = (SystemExit, KeyboardInterrupt, AssertionError)
 PUBLIC_EXC = (TaskCancelled, TaskClosed, StreamClosed, ResourcesUnavailable,
